@@ -150,6 +150,9 @@
 
 static long     StartTime, StopTime;
 static Boolean  GlobErrFlag;
+#ifdef ASL_VERIF
+static int VerifExtraPasses, VerifMaxPasses, VerifPassCount;
+#endif
 static unsigned MacroNestLevel = 0;
 
 /*=== Zeilen einlesen ======================================================*/
@@ -3165,6 +3168,16 @@ static void AssembleFile(char* Name) {
 
     PassNo         = 0;
     MomLineCounter = 0;
+#ifdef ASL_VERIF
+    {
+        /* verification hook H1: pass cap and forced extra passes */
+        char const* pEnv = getenv("ASL_VERIF_EXTRA_PASSES");
+        VerifExtraPasses = pEnv ? atoi(pEnv) : 0;
+        pEnv             = getenv("ASL_VERIF_MAX_PASSES");
+        VerifMaxPasses   = pEnv ? atoi(pEnv) : 0;
+        VerifPassCount   = 0;
+    }
+#endif
 
     /* Listdatei eroeffnen */
 
@@ -3275,6 +3288,22 @@ static void AssembleFile(char* Name) {
         if (MacroOutput && (PassNo == 1)) {
             CloseIfOpen(&MacroFile);
         }
+
+#ifdef ASL_VERIF
+        /* verification hook H1 */
+        VerifPassCount++;
+        if ((ErrorCount == 0) && !Repass && (VerifExtraPasses > 0)) {
+            VerifExtraPasses--;
+            Repass = True;
+        }
+        if ((ErrorCount == 0) && Repass && (VerifMaxPasses > 0)
+            && (VerifPassCount >= VerifMaxPasses)) {
+            if (CodeOutput) {
+                unlink(OutName);
+            }
+            exit(97);
+        }
+#endif
 
         /* evtl. fuer naechsten Durchlauf aufraeumen */
 
